@@ -11,6 +11,9 @@ subprocess.check_call(['rsync', '-a', '--delete', '--exclude', '/target', '--exc
 for rel, hf in unit['inject']:
     with open(os.path.join(d, rel), 'a') as f:
         f.write('\n#[cfg(kani)] #[path = "%s"] mod verif_kani;\n' % hf)
+import re
+for rel, pat, rep, mn in unit.get('rewrite', []):
+    q = os.path.join(d, rel); t = open(q).read(); open(q, 'w').write(re.sub(pat, rep, t))
 cmd = ['cargo', 'kani'] + unit.get('flags', []) + (['--features', unit['features']] if unit.get('features') else [])
 for h in sys.argv[2].split(','):
     cmd += ['--harness', h]
